@@ -735,11 +735,14 @@ int yr_object_array_set_item(YR_OBJECT* object, YR_OBJECT* item, int index)
 
     while (capacity <= index) capacity *= 2;
 
-    array->items = (YR_ARRAY_ITEMS*) yr_realloc(
+    YR_ARRAY_ITEMS* items = (YR_ARRAY_ITEMS*) yr_realloc(
         array->items, sizeof(YR_ARRAY_ITEMS) + capacity * sizeof(YR_OBJECT*));
 
-    if (array->items == NULL)
+    // On failure the array keeps its current items.
+    if (items == NULL)
       return ERROR_INSUFFICIENT_MEMORY;
+
+    array->items = items;
 
     for (int i = array->items->capacity; i < capacity; i++)
       array->items->objects[i] = NULL;
@@ -802,6 +805,11 @@ int yr_object_dict_set_item(YR_OBJECT* object, YR_OBJECT* item, const char* key)
 
   dict = object_as_dictionary(object);
 
+  SIZED_STRING* ss_key = ss_new(key);
+
+  if (ss_key == NULL)
+    return ERROR_INSUFFICIENT_MEMORY;
+
   if (dict->items == NULL)
   {
     count = 64;
@@ -810,7 +818,10 @@ int yr_object_dict_set_item(YR_OBJECT* object, YR_OBJECT* item, const char* key)
         sizeof(YR_DICTIONARY_ITEMS) + count * sizeof(dict->items->objects[0]));
 
     if (dict->items == NULL)
+    {
+      yr_free(ss_key);
       return ERROR_INSUFFICIENT_MEMORY;
+    }
 
     memset(dict->items->objects, 0, count * sizeof(dict->items->objects[0]));
 
@@ -820,12 +831,18 @@ int yr_object_dict_set_item(YR_OBJECT* object, YR_OBJECT* item, const char* key)
   else if (dict->items->free == 0)
   {
     count = dict->items->used * 2;
-    dict->items = (YR_DICTIONARY_ITEMS*) yr_realloc(
+    YR_DICTIONARY_ITEMS* items = (YR_DICTIONARY_ITEMS*) yr_realloc(
         dict->items,
         sizeof(YR_DICTIONARY_ITEMS) + count * sizeof(dict->items->objects[0]));
 
-    if (dict->items == NULL)
+    // On failure the dictionary keeps its current items.
+    if (items == NULL)
+    {
+      yr_free(ss_key);
       return ERROR_INSUFFICIENT_MEMORY;
+    }
+
+    dict->items = items;
 
     for (int i = dict->items->used; i < count; i++)
     {
@@ -838,7 +855,7 @@ int yr_object_dict_set_item(YR_OBJECT* object, YR_OBJECT* item, const char* key)
 
   item->parent = object;
 
-  dict->items->objects[dict->items->used].key = ss_new(key);
+  dict->items->objects[dict->items->used].key = ss_key;
   dict->items->objects[dict->items->used].obj = item;
 
   dict->items->used++;
